@@ -6,6 +6,7 @@
 package auditlog
 
 import (
+	"fmt"
 	"io"
 	"io/fs"
 	"log"
@@ -85,20 +86,28 @@ func (cl concurrentWriter) Write(al plugintypes.AuditLog) error {
 	cl.mux.Lock()
 	defer cl.mux.Unlock()
 
-	cl.log.Printf("%s %s - - [%s]", al.Transaction().ClientIP(), al.Transaction().HostIP(), al.Transaction().Timestamp())
+	// Output reports the error of the underlying writer (Printf would swallow it), so an index line
+	// that cannot be written surfaces to the caller like a record that cannot be written.
+	var werr error
+	printf := func(format string, a ...any) {
+		if werr == nil {
+			werr = cl.log.Output(2, fmt.Sprintf(format, a...))
+		}
+	}
+	printf("%s %s - - [%s]", al.Transaction().ClientIP(), al.Transaction().HostIP(), al.Transaction().Timestamp())
 	if al.Transaction().HasRequest() {
-		cl.log.Printf(
+		printf(
 			` "%s %s %s"`,
 			al.Transaction().Request().Method(),
 			al.Transaction().Request().URI(),
 			al.Transaction().Request().HTTPVersion())
 	}
 	if al.Transaction().HasResponse() {
-		cl.log.Printf(` %d`, al.Transaction().Response().Status())
+		printf(` %d`, al.Transaction().Response().Status())
 	}
-	cl.log.Printf("%s - %s\n", al.Transaction().ID(), filepath)
+	printf("%s - %s\n", al.Transaction().ID(), filepath)
 
-	return nil
+	return werr
 }
 
 var _ plugintypes.AuditLogWriter = (*concurrentWriter)(nil)
